@@ -146,6 +146,21 @@ void sha256_compress(std::uint32_t state[8], const std::uint8_t* buf)
         state[i] = state[i] + S[i];
 }
 
+#if defined(TLX_VERIF)
+// verification hook (off unless TLX_VERIF is defined): direct access to the
+// compression function, and optional redirection of its calls to a recorder.
+} // namespace
+void tlx_verif_real_sha256_compress(std::uint32_t* state, const std::uint8_t* buf)
+{
+    sha256_compress(state, buf);
+}
+#if defined(TLX_VERIF_DIGEST_HOOK)
+void tlx_verif_sha256_compress(std::uint32_t* state, const std::uint8_t* buf);
+#define sha256_compress tlx_verif_sha256_compress
+#endif
+namespace {
+#endif // TLX_VERIF
+
 } // namespace
 
 SHA256::SHA256()
